@@ -636,8 +636,8 @@ def run_case(case):
             # (the alone runs do not look at 'warm'; the deep chain has no per-thread probes)
             kp = {k_: v_ for k_, v_ in p.items()
                   if k_ != 'warm' and not (k_ == 'name' and p['kind'] == 'deep')}
-            pkey = hashlib.sha256(json.dumps([kp, grain], sort_keys=True, default=str).encode()
-                                  ).hexdigest()
+            pkey = hashlib.sha256(json.dumps([kp, grain, core.log_mode(case)], sort_keys=True,
+                                             default=str).encode()).hexdigest()
             if pkey in _REF_CACHE:
                 ref[p['name']], lengths[p['name']], sites[p['name']] = _REF_CACHE[pkey]
                 continue
@@ -827,6 +827,7 @@ def shrink(case, tag, max_tests):
 
     def fails(c):
         try:
+            core.apply_log_mode(c)
             r = run_case(json.loads(json.dumps(c)))
         except Exception:   # noqa
             return None
